@@ -101,7 +101,7 @@ def build_bk(case):
         ch, fp = config(n, 0)
         kids = [objs[i] for i in ch]
         if k == "attr":
-            objs[n["id"]] = urwid.AttrMap(kids[0], None)
+            objs[n["id"]] = urwid.AttrMap(kids[0], "m")
         elif k == "pad":
             objs[n["id"]] = urwid.Padding(kids[0], left=n["l"], right=n["r"])
         elif k == "pile":
@@ -685,7 +685,8 @@ def shim(names):
 
             def cols_render(self, size, focus=False):
                 canv = cols_fn(self, size, focus)
-                if any(w <= 0 for w in self.get_column_sizes(size, focus)[0]):
+                widths = self.get_column_sizes(size, focus)[0]
+                if len(widths) < len(self.contents) or any(w <= 0 for w in widths):
                     canv = CompositeCanvas(canv)
                     canv.cacheable = False
                 return canv
@@ -1043,13 +1044,13 @@ class C06(core.Check):
         return {"kind": "real", "mode": rng.choice(["swap", "swap", "clear"]), "tree": tree, "ops": ops}
 
     def cases(self, rng, tier):
-        nbk = 2500 if tier == "quick" else 25000
+        nbk = 2500 if tier == "quick" else 20000
         for _ in range(nbk):
             yield self.gen_bk(rng)
         # directed: a container that is cached at one size only, over an uncacheable / shared child
         for _ in range(nbk // 10):
             yield self.gen_bk_directed(rng)
-        nreal = 1500 if tier == "quick" else 15000
+        nreal = 1500 if tier == "quick" else 10000
         for _ in range(nreal):
             yield self.gen_real(rng)
 
